@@ -37,6 +37,8 @@ def run(rep):
     import c04
     rep.guard(c04.b5, rep, dev)     # the stack bounds test exists only in checked builds: a capacity below frames x locals is a panic there and silent memory corruption in the optimised build
     rep.guard(c02.p11, rep, dev)    # ... the same for any other fixed-capacity Stack
+    rep.guard(v10, rep, dev)
+    rep.guard(c02.p1, rep, dev)     # a built-in reads only the slots its argument count covers: a read below the frame panics in the bounds-checked stack and answers with whatever lies there in the unchecked one
     rep.guard(c01.r2, rep, dev)     # a handle kept outside the heap without a root: what it points to is gone after the next collection, which the stress build runs at every allocation
     import c04_narrow
     rep.guard(c04_narrow.b4n, rep, dev)   # a sub-word counter the compiler can overflow: the checked build panics in the compiler, the optimised build wraps and carries on with the wrapped count
@@ -622,3 +624,46 @@ def v7(rep, w):
         r.check(not used, '%s reads the clock without deciding anything by it' % p_.replace('yarel::', ''),
                 '%s compares or branches on a reading of the clock (%s): what the program observes then depends on timing' % (p_, sorted(set(used))), f.loc())
     r.ok('census of clock readings in code reachable from Vm::run: %d' % n)
+
+
+def v10(rep, dev):
+    """hash values are full-width 64-bit numbers: arithmetic that mixes them (sum, product) overflows for almost every input, which a checked
+    build reports as a panic and an optimised build wraps. Everything the crate's Hash implementations and hash helpers compute on u64 values is
+    therefore xor / shifts / the wrapping_* and rotate_* methods - never the plain `+` / `*` / `-` operators on operands that are not constants."""
+    r = rep.rule('V10', 'hash mixing uses no overflow-checked arithmetic on 64-bit values (same result in checked and optimised builds)', floor=3)
+    c = dev.yarel
+    roots = [p_ for p_, f in c.fns.items() if ('as std::hash::Hash>::hash' in p_ or 'as std::hash::Hasher>' in p_ or
+                                                (f.file.endswith('utils.rs') and 'hash' in f.name))]
+    seen, todo = set(), list(roots)
+    while todo:
+        p_ = todo.pop()
+        if p_ in seen or p_ not in c.fns:
+            continue
+        seen.add(p_)
+        g = c.fns[p_]
+        for _, t in g.calls(only_normal=False):
+            tg, _, _ = dev.call_targets(g, t)
+            todo.extend(x for x in tg if x in c.fns and (c.fns[x].file.endswith(('utils.rs', 'hash.rs')) or 'Hash' in x or c.fns[x].kind == 'Closure'))
+    if len(seen) < 3:
+        raise Broken('C10', 'floor', 'V10: only %d hash functions found' % len(seen))
+    for p_ in sorted(seen):
+        g = c.fns[p_]
+        bad = []
+        for bi in g.normal_blocks():
+            for s_ in g.blocks[bi]['s']:
+                rr = s_.get('r', {})
+                if rr.get('rv') == 'bin' and rr['op'] in ('AddWithOverflow', 'MulWithOverflow', 'SubWithOverflow', 'Add', 'Mul', 'Sub'):
+                    tys = set()
+                    consts = 0
+                    for o in (rr['a'], rr['b']):
+                        pl = op_place(o)
+                        if pl is not None:
+                            tys.add(c.tstr(pl.get('t', g.local_ty(pl['l']))))
+                        elif op_const(o) is not None:
+                            consts += 1
+                            tys.add(c.tstr(op_const(o).get('t'))) if op_const(o).get('t') is not None else None
+                    if 'u64' in tys and consts < 2 and not (isinstance(s_.get('sp'), list) and s_['sp'][1]):
+                        bad.append(rr['op'].replace('WithOverflow', ''))
+        r.check(not bad, '%s / no checked 64-bit arithmetic' % p_.replace('yarel::', ''),
+                '%s mixes hash values with the plain operator %s on u64: for most inputs the result overflows - a panic in a build with overflow checks, a wrapped value in an '
+                'optimised one' % (p_, ' / '.join(sorted(set(bad)))), g.loc())
